@@ -29,12 +29,16 @@ def run(rep):
     run_calls2(rep, rep.tier, ["BandsOK"], {"fwd"}, HWCodes={404}, LCodes={202}, JMax=1, Emit=False)
     linchecks.validate_executions(rep, "C07", rep.tier)
     linchecks.slice_independence(rep, "C07", rep.tier)
+    linchecks.expanded_operands(rep, "C07", rep.tier)     # broadcast (stride-0) operands = their contiguous copies
+    linchecks.special_values(rep, "C07", rep.tier)        # one slice of NaN / inf / exact zeros: that slice only, and not cleaned up
     linchecks.wide_channels(rep, "C07", rep.tier)          # channel counts beyond the usual slab sizes (67, 131, 259)
     linchecks.superposition(rep, "C07", rep.tier)
     linchecks.numeric_maps(rep, "C07", rep.tier)
     rep.assumptions += ["the category table of harness/dispatch.py (operator name -> category) is trusted; unknown operators "
                         "with input-dependent arguments are rejected",
                         "linearity is established per recorded execution shape, not for shapes never run (DESIGN.md 10)"]
+    from .. import scalechecks
+    scalechecks.batch_split(rep, "C07", rep.tier, which=("dwt", "dtcwt", "swt"))      # item n of a big batch = that item alone (values, gradients)
 
 
 def replay(rep, case):
